@@ -19,11 +19,14 @@ const (
 	FFlip      = "flip"
 	FIllTyped  = "illtyped"
 	FTransient = "transient"
+	FTrail     = "trail" // the complete document followed by garbage (a glued second document, a stray brace, a proxy error page)
 )
 
-var FaultKinds = []string{FRefuse, FTorn, FFlip, FIllTyped, FTransient}
+var FaultKinds = []string{FRefuse, FTorn, FFlip, FIllTyped, FTransient, FTrail}
 
-var illTypedDocs = []string{`"a string"`, `42`, `true`, `null`, `[{"definitions":{}}]`, `3.5`}
+var trailers = []string{"}", " {\"definitions\":{}}", "\n<html>502 Bad Gateway</html>", " null", ",", "]"}
+
+var illTypedDocs = []string{`"a string"`, `42`, `true`, `null`, `[{"description":"element of an array answer"}]`, `3.5`}
 
 // Apply returns what the loader hands out for a document under this fault, for the n-th
 // request (0-based) of that URL. ok=false means the loader returns an error.
@@ -56,6 +59,8 @@ func (f Fault) Apply(doc []byte, nth int) (out []byte, ok bool) {
 		return c, true
 	case FIllTyped:
 		return []byte(illTypedDocs[abs(f.Arg)%len(illTypedDocs)]), true
+	case FTrail:
+		return append(append([]byte{}, doc...), trailers[abs(f.Arg)%len(trailers)]...), true
 	}
 	return doc, true
 }
